@@ -47,11 +47,13 @@ def run_one(entry, kind):
             r = subprocess.run([os.path.join(VERIF, 'check'), pid], env=env, stdout=subprocess.PIPE, stderr=subprocess.STDOUT, text=True)
             lines = [l for l in r.stdout.split('\n') if l.startswith('  REFUTED') or l.startswith('  UNPROVEN')]
             compile_fail = 'does not compile' in r.stdout
-            res[pid] = (r.returncode, lines[:3], compile_fail)
+            fired = ('VIOLATION property=%s' % pid) in r.stdout
+            res[pid] = (1 if fired else (0 if r.returncode == 0 else 2), lines[:3], compile_fail)
         if kind == 'mutant':
-            fired = [pid for pid, (rc, _, cf) in res.items() if rc != 0 and not cf]
+            fired = [pid for pid, (rc, _, cf) in res.items() if rc == 1 and not cf]
+            broken = [pid for pid, (rc, _, cf) in res.items() if rc == 2 and not cf]
             cf = any(c for _, _, c in res.values())
-            status = 'COMPILE-FAIL' if cf else ('CAUGHT' if fired else 'MISSED')
+            status = 'COMPILE-FAIL' if cf else ('CAUGHT' if fired else ('CHECK-CRASH' if broken else 'MISSED'))
             return (mid, kind, status, '; '.join('%s: %s' % (pid, ' | '.join(l.strip() for l in ls[:2])) for pid, (rc, ls, _) in res.items() if rc != 0))
         else:
             noisy = [pid for pid, (rc, _, _) in res.items() if rc != 0]
@@ -80,7 +82,7 @@ def main():
     with concurrent.futures.ThreadPoolExecutor(max_workers=jobs) as ex:
         for mid, kind, status, info in ex.map(lambda w: run_one(*w), work):
             print('%-8s %-14s %-40s %s' % (kind, status, mid, info[:300]))
-            if status in ('MISSED', 'NOISY', 'ANCHOR-MISSING'):
+            if status in ('MISSED', 'NOISY', 'ANCHOR-MISSING', 'CHECK-CRASH'):
                 bad += 1
     print('selftest: %d entries, %d problems' % (len(work), bad))
     return 1 if bad else 0
